@@ -24,6 +24,13 @@ CLAIMS = {
     "C03": ("for each path skeleton (primitive/map/list/map-or-list parts with condition trees) over heterogeneous 3-level documents, "
             "the selected nodes (by identity) and concrete paths equal the part-by-part reference walk for every value of the symbolic "
             "leaves, primitive parts and thresholds; entry points agree", "3 C03"),
+    "C04": ("for every (value, path) returned, indexing the original document along the path reaches that very object, paths are "
+            "pairwise distinct and values without paths are the same objects in order; every (datum modifier x multiplicity modifier) "
+            "pair in both application orders equals the reference function of the reference walk, for every value of the symbolic "
+            "leaves/parts; single() errors iff several match; multiplicity modifiers refused on concrete paths", "3 C04"),
+    "C05": ("Rule.test verdict, tested flag, failure count and the ordered failure list (node identity, truthful concrete path, >= 1 "
+            "reason) equal the reference rule semantics for every value of the symbolic leaves, thresholds and primitive parts, per "
+            "(path skeleton x value-kind condition tree x document skeleton)", "3 C05"),
     "C14": ("equality laws (reflexive/symmetric/transitive, rebuilt and commuted copies equal) and 'equal implies same "
             "behaviour' decided for every value of the differing atom (key, index, argument, label) and of the probe "
             "document's leaves, per term kind", "3 C14"),
